@@ -89,6 +89,14 @@ func c20Run(c *caseCtx) (res caseResult) {
 	addr := func(i int) string { return fmt.Sprintf("127.0.0.1:%d", base+i) }
 	// the node under test
 	cfg := cluster.NewConfig().WithListenAddr(addr(0)).WithID("node").WithRequestTimeout(60 * time.Second)
+	// every other case: the node is configured with bootstrap members, which are members of the universe
+	// below (u0 under its first address, u3 under its second); they are members like any other
+	boot := c.n%2 == 1
+	if boot {
+		cfg = cfg.WithProvider(cluster.NewSelfManagedProvider(cluster.NewSelfManagedConfig().
+			WithBootstrapMember(cluster.MemberAddr{ListenAddr: addr(2), ID: "u0"}).
+			WithBootstrapMember(cluster.MemberAddr{ListenAddr: addr(9 + 3), ID: "u3"})))
+	}
 	cl, err := cluster.New(cfg)
 	if err != nil {
 		res.inconclusive("cluster: %v", err)
@@ -445,9 +453,9 @@ func c20Run(c *caseCtx) (res caseResult) {
 	}
 	res.count("steps", int64(len(script)))
 	res.count("handshake_replies", int64(probe.count()))
-	res.Desc = fmt.Sprintf("provider steps=%s", string(shape))
+	res.Desc = fmt.Sprintf("provider steps=%s bootstrap=%v", string(shape), boot)
 	if interesting > 0 {
-		res.Sig = sigHash("c20", string(shape))
+		res.Sig = sigHash("c20", string(shape), boot)
 	}
 	if c.n < 2 || res.Verdict == vViolated {
 		res.Sample = map[string]any{"history": script, "final_members": modelIDs()}
